@@ -5,7 +5,7 @@ Everything outside the subset raises `Unsupported` (the framework records a tran
 raises as a broken proof obligation) -- the translator never guesses.
 Self-test: gen/py2lean_selftest.py translates one small function per construct of the subset
 (gen/py2lean_selftest_src.py) and attaches what CPython computes on a grid of arguments as Lean
-`example`s (740 cases); they are rebuilt whenever this file changes and gate every `gen_*_eq` theorem.
+`example`s (787 cases); they are rebuilt whenever this file changes and gate every `gen_*_eq` theorem.
 
 Use (from a per-property module gen/py2lean_cXX.py):
 
